@@ -147,7 +147,9 @@ func mapKeyOf(m reflect.Value, key val.Value) (reflect.Value, error) {
 			return k, fmt.Errorf("%w. %s key cannot index %s", fc.BadRequestError, key.Format(), m.Type())
 		}
 		converted := k.Convert(want)
-		if converted.Convert(k.Type()).Interface() != k.Interface() {
+		// a conversion between signed and unsigned of one size turns back into the same bits
+		signLost := (k.CanInt() && k.Int() < 0 && converted.CanUint()) || (k.CanUint() && converted.CanInt() && converted.Int() < 0)
+		if signLost || converted.Convert(k.Type()).Interface() != k.Interface() {
 			return k, fmt.Errorf("%w. key %s does not fit the key of %s", fc.BadRequestError, key.String(), m.Type())
 		}
 		k = converted
